@@ -137,7 +137,21 @@ Section C08volavg.
     vt_add T2 n2 (vt_add T1 n1 oval) i j k
     = (oval i j k + (vt_add T1 n1 zero3 i j k + vt_add T2 n2 zero3 i j k))%F.
   Proof. exact (vt_add_twice Fth T1 T2 n1 n2 oval i j k). Qed.
+  (* 6. Hypothesis V_T of jt_adjoint holds for the model's own pair: the forward
+     volume averaging [v_apply T] (what jvec applies AFTER the chain factor on
+     the model grid, Model/Adjoint.v jvec_source_T) and the accumulating adjoint
+     [vt_add T] (what gradient/jtvec apply BEFORE the chain factor on the model
+     grid) built from the same entry list are transposes, for every entry list
+     whose cells lie in the duplicate-free cell lists summed over. *)
+  Theorem volume_average_pair_is_transpose (T : list (cell3 * cell3 * K)) (a x : A3)
+          (Cm Cc : list cell3) :
+    NoDup Cm -> NoDup Cc ->
+    (forall t, In t T -> In (fst (fst t)) Cm /\ In (snd (fst t)) Cc) ->
+    sum Cc (fun c => (at3 (v_apply T a) c * at3 x c)%F)
+    = sum Cm (fun m => (at3 a m * at3 (vt_add T x zero3) m)%F).
+  Proof. exact (v_apply_vt_add_transpose Fth T a x Cm Cc). Qed.
 End C08volavg.
 
 Print Assumptions vol_avg_adjoint_accumulates.
 Print Assumptions vol_avg_adjoint_twice.
+Print Assumptions volume_average_pair_is_transpose.
